@@ -6,6 +6,7 @@ def conditions(tier):
     H = "vf.ch.h_c19"
     cs = [dict(module="vf.ch.h_c08", func="_nest2", cases=32, what="L1 shift invariance: every depth-2 canary returns the fresh-interpreter result for ANY initial trace counter"),
           dict(module=H, func="_fault", cases=3 * 3 * 2 * 2 * 4, what="L2: fault kind x position x caught/uncaught x depth x modes; counter never below start, registries untouched, enclosing differentiation continues, canaries fine", timeout={"quick": 300, "thorough": 900}),
+          dict(module=H, func="_reuse_after_fault", cases=8, what="a VJP function is called again after one of its calls failed at the k-th backward rule (fan-out graph): same answers as a fresh one", timeout={"quick": 200, "thorough": 600}),
           dict(module=H, func="_fault_reach", expect="counterexample", what="reachability twin"),
           dict(module=H, func="_absolute_id_planted", expect="counterexample", what="planted defect: dependence on an absolute trace id")]
     for f1 in range(4):
